@@ -1,4 +1,5 @@
 """Calls: builtins, callee contracts (modular), inlining of small contract-less functions, trusted externals."""
+import os
 import z3
 from .world import OutOfSubset, LValue, FuncVal
 from .heap import Heap
@@ -463,6 +464,10 @@ def contract_call(X, ins, key, c, argv, iface_sig=None):
     pre = X.heap.copy()
     ev = SpecEval(V, pkg, env, pre, old=pre)
     ev.in_callee = True
+    hyps_before_call_ = len(V.hyps)
+    X._assumption_points = getattr(V, 'assumption_points', None)
+    if X._assumption_points is None:
+        V.assumption_points = X._assumption_points = []
     short = key
     try:
         for k, (lab, ast, txt) in enumerate(c['requires']):
@@ -556,10 +561,26 @@ def contract_call(X, ins, key, c, argv, iface_sig=None):
         ev2.in_callee = True
         topc = V.contracts['funcs'].get(V.fnkey) or {}
         light = 'lightcalls' in topc.get('flags', ())
+        ante_ = []
         for k, (lab, ast, txt) in enumerate(c['ensures']):
             if light and lab and lab.startswith(('inv', 'own', 'orientation', 'hint', 'nobody', 'no_branch')):
                 continue     # flag lightcalls: the caller does not reason about the global invariants; assume less
+            if ('ncalls_' in txt or 'fncalls_' in txt) and not os.environ.get('GOVC_TEST_ASSUME_NCALLS'):
+                # call counters are bookkeeping of the function being verified: a callee's statement about its own
+                # counters says nothing about the caller's (assuming it would equate x with x+1)
+                continue
             X.hyp(ev2.boolean(ast))
+            if X.top and ast[0] == 'bin' and ast[1] == '==>':
+                try:
+                    ante_.append((lab or str(k), ev2.boolean(ast[2])))
+                except SpecError:
+                    pass
+        if X.top and 'noreturn' not in c['flags']:
+            # vacuity guard: what was assumed about this call must not refute a state that was not refutable before,
+            # neither as a whole nor in any of the cases its conditional postconditions distinguish
+            V.assumption_points.append(('contract of %s assumed at %s' % (key, ins.get('pos', '')), X.reach, V.cur_block, hyps_before_call_, len(V.hyps), None))
+            for (lab_, a_) in ante_:
+                V.assumption_points.append(('case [%s] of the contract of %s assumed at %s' % (lab_, key, ins.get('pos', '')), X.reach, V.cur_block, hyps_before_call_, len(V.hyps), a_))
         if 'noreturn' in c['flags']:
             X.hyp(z3.BoolVal(False))
             X.dead = True
